@@ -133,6 +133,7 @@ type Exec struct {
 	faults     []*Fault
 	free       atomic.Bool
 	fine       atomic.Bool // function entries of the code under test are scheduling points too (FinePoint)
+	noTime     bool        // no "a timer fires although a goroutine could run" alternatives (harness peers with timers of their own)
 	bodyDone   atomic.Bool
 	t0         time.Time
 	lastLid    int
@@ -259,6 +260,9 @@ func FinePoint(site string) {
 	}
 	x.park(&parked{site: site, kind: KPoint})
 }
+
+// SetNoTime removes the timer-deviation alternatives from this execution's decision points.
+func (x *Exec) SetNoTime(on bool) { x.noTime = on }
 
 // SetFine switches fine-grained preemption points on or off for this execution.
 func (x *Exec) SetFine(on bool) { x.fine.Store(on) }
@@ -705,7 +709,7 @@ func (x *Exec) loop(opt Options) {
 				}
 			}
 		}
-		if _, ok := x.pendingTimer(); ok {
+		if _, ok := x.pendingTimer(); ok && !x.noTime {
 			alts = append(alts, alt{kind: ATime})
 		}
 		for i, f := range x.faults {
